@@ -142,12 +142,26 @@ def run_real(case):
         except (KeyError, IndexError, StrategyDoesNotApply) as e:
             died = type(e).__name__
             found = False
+        # "extra": go on for some levels AFTER the specification was found, so that the universe the extractor
+        # minimises (table_method._rules) holds more than the first productive set; a table without contracts may
+        # make the searcher die there: the search simply stops, what was inserted stands
+        if found:
+            try:
+                for _ in range(int(case.get("extra", 0))):
+                    css.do_level()
+            except (NoMoreClassesToExpandError, KeyError, IndexError, StrategyDoesNotApply):
+                pass
         res = {"found": bool(found), "order": pack_order(pack), "died": died}
         if not found:
             return res
         classdb.set_empty = o_se
         res["unstable"] = sorted(l for l, vs in writes.items()
                                  if len(vs) > 1 or bool(u["empty"][classdb.get_class(l).n]) not in vs)
+        # the LIVE key set: every forest key RuleDBForest.add handed to its table method during this search, in
+        # insertion order, in the encoding of the abstract key cases (c11._enc_key), read BEFORE the extractor runs
+        res["live_root"] = css.start_label
+        res["live_keys"] = [[k[0], [[c, sh] for c, sh in zip(k[1], k[2])], k[3]]
+                            for k in (enc_key(fk) for fk in css.ruledb.table_method._rules)]  # pylint: disable=protected-access
         ex = ForestRuleExtractor(css.start_label, css.ruledb, css.classdb, css.strategy_pack)
         try:
             ex.check()
@@ -408,6 +422,16 @@ def oracle(case, res):
         return None
     if not res.get("check"):
         return "the extractor's own check() failed (AssertionError)"
+    # clauses 1-6 on the LIVE universe: subset of the inserted keys / productive / minimal / one rule per class /
+    # closed / no bucket-REVERSE key when the others suffice, decided by the Kleene iteration on
+    # table_method._rules of this search (the same judgement the abstract key cases get)
+    if res.get("live_keys") is not None:
+        from harness.props import c11
+
+        why = c11.key_oracle(res["live_keys"], res["live_root"], live_needed(res))
+        if why:
+            return "live search, %d keys in table_method._rules, root label %d: %s" % (
+                len(res["live_keys"]), res["live_root"], why)
     u = case["u"]
     classes, empties = res["db2"]
     needed = res["needed"]
@@ -451,6 +475,94 @@ def oracle(case, res):
     return None
 
 
+def live_needed(res):
+    """needed_rules of the real extractor in the encoding of the abstract key cases"""
+    return [[k[0], [[c, sh] for c, sh in zip(k[1], k[2])], k[3]] for k in res["needed"]]
+
+
+# live key sets (main process, filled by classify): the extractor MODEL run_c11 is run on them in extra_checks
+LIVE = []
+LIVE_MAX = 4000
+LIVE_STATS = {"sets": 0, "keys": 0, "max": 0, "min": None, "bucket": [0, 0, 0, 0], "needed": 0, "needed_bucket": [0, 0, 0, 0],
+              "sizes": {"<=10": 0, "11-25": 0, "26-50": 0, "51-100": 0, ">100": 0}, "rev": 0, "dropped": 0}
+
+
+def _live_tally(case, res):
+    if res.get("live_keys") is None or "needed" not in res:
+        return
+    st = LIVE_STATS
+    ks = res["live_keys"]
+    st["sets"] += 1
+    st["keys"] += len(ks)
+    st["max"] = max(st["max"], len(ks))
+    st["min"] = len(ks) if st["min"] is None else min(st["min"], len(ks))
+    st["rev"] += int(bool(case.get("rev")))
+    n = len(ks)
+    st["sizes"]["<=10" if n <= 10 else "11-25" if n <= 25 else "26-50" if n <= 50 else "51-100" if n <= 100 else ">100"] += 1
+    for k in ks:
+        st["bucket"][k[2]] += 1
+    nd = live_needed(res)
+    st["needed"] += len(nd)
+    for k in nd:
+        st["needed_bucket"][k[2]] += 1
+    if len(LIVE) < LIVE_MAX:
+        LIVE.append((res["live_root"], ks, nd, int(bool(res.get("check")))))
+    else:
+        st["dropped"] += 1
+
+
+def live_model_check(full):
+    """ONE extra call of the extracted extractor model run_c11 per live search that found a specification, on
+    (root label, table_method._rules of the search) - the input format of the abstract key cases - and its
+    needed_rules compared, as a list, with ForestRuleExtractor(...).needed_rules of the real run.  Ties the model
+    C11_subset / _productive / _minimal / _closed_total / _one_rule_per_class / _all_classes_pump / _reverse_last_total
+    speak about to LIVE key sets.  Returns a list of (name, ok, detail)."""
+    import multiprocessing as mp
+
+    from harness import core
+
+    st = LIVE_STATS
+    binary = os.path.join(core.WORK, "C11", "ocaml", "model")
+    names = ["REVERSE", "NORMAL", "EQUIV", "VERIFICATION"]
+    mix = lambda b: ", ".join("%s %d" % (n, v) for n, v in zip(names, b))  # noqa: E731
+    cov = ("%d live key sets = table_method._rules of real RuleDBForest searches that found a specification (reverse=True: "
+           "%d): %d keys, %s-%d per set, mean %.1f, by size %s; buckets of the universes: %s; real needed_rules: %d keys, "
+           "mean %.1f per set, buckets: %s"
+           % (st["sets"], st["rev"], st["keys"], st["min"], st["max"], st["keys"] / max(1, st["sets"]),
+              ", ".join("%s: %d" % kv for kv in st["sizes"].items()),
+              mix(st["bucket"]), st["needed"], st["needed"] / max(1, st["sets"]), mix(st["needed_bucket"])))
+    if not os.path.exists(binary):
+        return [("extractor model run_c11 on the live key sets", not full, "model binary MISSING; " + cov)]
+    if not LIVE:
+        return [("extractor model run_c11 on the live key sets", not full, "no live key set; " + cov)]
+    enc = [[root, ks] for root, ks, _nd, _chk in LIVE]
+    with mp.get_context("fork").Pool(core.NCPU) as pool:
+        mo = core.run_model(binary, enc, pool)
+    bad = []
+    for (root, ks, nd, chk), m in zip(LIVE, mo):
+        real = [0, nd, chk]
+        if isinstance(m, dict) or core.canon(m) != core.canon(real):
+            bad.append((root, ks, real, m))
+    out = []
+    if bad:
+        root, ks, real, m = min(bad, key=lambda b: len(b[1]))
+        # the same (root, keys) is an abstract key case of this check: replayable with ./check C11 --replay
+        path = core.write_replay("C11", "live-key-set", {"case": {"root": root, "keys": ks}, "impl_out": real, "model_out": m,
+                                                         "what": "extractor model vs real needed_rules on a live key set"})
+        out.append(("extractor model run_c11 vs ForestRuleExtractor.needed_rules on LIVE key sets: %d of %d differ"
+                    % (len(bad), len(LIVE)), False,
+                    "failing input: root=%d keys=%r (%s): the real extractor of the search gives [status, needed_rules, check] "
+                    "= %r, the extracted model %r" % (root, ks, path, real, m)))
+    else:
+        out.append(("extractor model run_c11 vs ForestRuleExtractor.needed_rules on LIVE key sets: all %d agree (as lists)"
+                    % len(LIVE), True, cov + ("; %d further sets not kept (cap %d)" % (st["dropped"], LIVE_MAX) if st["dropped"] else "")))
+    # coverage floors of a full run
+    ok = (not full) or (st["sets"] >= 500 and st["bucket"][0] >= 500 and st["needed_bucket"][0] >= 10 and st["max"] >= 30)
+    out.append(("live key sets: coverage (>= 500 sets, >= 500 bucket-REVERSE keys, >= 10 needed REVERSE keys, a set of >= 30 keys)",
+                ok, cov))
+    return out
+
+
 def finding_match(case, why):
     if why and why.startswith(KNOWN_FOREIGN):
         return "find-rule-foreign-parent-outside-key"
@@ -477,6 +589,7 @@ def nontrivial(case, res):
 
 def classify(case, res):
     tags = ["search"]
+    _live_tally(case, res)          # (main process)
     if not res.get("found"):
         return tags + ["search:died" if res.get("died") else "search:no_spec"]
     per = res.get("per", [])
@@ -528,7 +641,7 @@ def gen_case(rng):
             kind = 1 if u["strats"][sid]["kind"] == "V" else 0
             cache.append([sid, rng.randrange(n), kind, -1 if kind or rng.random() < 0.6 else rng.randrange(3)])
     return {"kind": "search", "u": u, "rev": rng.randint(0, 1), "comp": rng.randint(0, 1), "cache": cache,
-            "levels": 30}
+            "levels": 30, "extra": rng.choice([0, 0, 0, 0, 1, 2, 4])}
 
 
 def shrink(case):
